@@ -15,11 +15,11 @@ int main(int argc,char**argv){ gr_face*f=gr_make_file_face(argv[1],0); if(!f){pu
     gr_segment*a=gr_make_seg(0,f,0,0,gr_utf32,t.data(),n,dir),*b=gr_make_seg(font,f,0,0,gr_utf32,t.data(),n,dir);
     if(!a||!b){ if(a)gr_seg_destroy(a); if(b)gr_seg_destroy(b); gr_font_destroy(font); continue;}
     unsigned ns=gr_seg_n_slots(a); if(ns!=gr_seg_n_slots(b)){structdiff++;}
-    else { const gr_slot*p=gr_seg_first_slot(a),*q=gr_seg_first_slot(b); int k=2*ns+4;
+    else { const gr_slot*p=gr_seg_first_slot(a),*q=gr_seg_first_slot(b); int k=2*ns+4; double M=fabs(gr_seg_advance_X(a)); for(const gr_slot*z=gr_seg_first_slot(a);z;z=gr_slot_next_in_segment(z)){ M=fmax(M,fabs(gr_slot_origin_X(z))); M=fmax(M,fabs(gr_slot_origin_Y(z))); M=fmax(M,fabs(gr_slot_advance_X(z,f,0))); }
       for(;p&&q;p=gr_slot_next_in_segment(p),q=gr_slot_next_in_segment(q)){ if(gr_slot_gid(p)!=gr_slot_gid(q)) structdiff++;
         float va[4]={gr_slot_origin_X(p),gr_slot_origin_Y(p),gr_slot_advance_X(p,f,0),gr_slot_advance_Y(p,f,0)}; float vb[4]={gr_slot_origin_X(q),gr_slot_origin_Y(q),gr_slot_advance_X(q,f,font),gr_slot_advance_Y(q,f,font)};
-        for(int j=0;j<4;j++){ double exp=(double)s*va[j]; double err=fabs(vb[j]-exp); double tol=4.0*k*1.1920929e-7*fmax(fabs(exp),1e-30)+1e-6*s; double r=err/tol; if(r>worst){worst=r;} if(err>worstabs)worstabs=err; cmp++; } }
-      { double exp=(double)s*gr_seg_advance_X(a); double err=fabs(gr_seg_advance_X(b)-exp); double tol=4.0*k*1.1920929e-7*fmax(fabs(exp),1e-30)+1e-6*s; if(err/tol>worst)worst=err/tol; }
+        for(int j=0;j<4;j++){ double exp=(double)s*va[j]; double err=fabs(vb[j]-exp); double tol=8.0*k*1.1920929e-7*s*fmax(M,(double)upem); double r=err/tol; if(r>worst){worst=r;} if(err>worstabs)worstabs=err; cmp++; } }
+      { double exp=(double)s*gr_seg_advance_X(a); double err=fabs(gr_seg_advance_X(b)-exp); double tol=8.0*k*1.1920929e-7*s*fmax(M,(double)upem); if(err/tol>worst)worst=err/tol; }
     }
     gr_seg_destroy(a); gr_seg_destroy(b); gr_font_destroy(font);} 
   printf("%s upem=%g comparisons=%ld structdiff=%ld worst err/tol=%.4f worst abs err=%g\n",argv[1],upem,cmp,structdiff,worst,worstabs); gr_face_destroy(f);} 
